@@ -65,6 +65,10 @@ const SPLICE_VALUES: &[&[u8]] = &[
     &[0xc3, 0x28], // invalid UTF-8
 ];
 
+/// five-byte length prefixes whose last byte still has the continuation bit: a VarInt has at most
+/// five bytes, so the length is known (and illegal: 0, negative or huge) once they are there
+const RAW_PREFIX: &[&[u8]] = &[&[0x80, 0x80, 0x80, 0x80, 0x80], &[0xff, 0xff, 0xff, 0xff, 0xff], &[0x81, 0x80, 0x80, 0x80, 0xf0], &[0xff, 0xff, 0xff, 0xff, 0x8f]];
+
 const OUTER: &[i32] = &[-1, 0, i32::MIN, i32::MAX, 2_097_152];
 
 fn generate(rng: &mut Rng, index: u64) -> ConnScenario {
@@ -95,9 +99,12 @@ fn generate(rng: &mut Rng, index: u64) -> ConnScenario {
         for k in 0..4 {
             menu.push((fi, 3, k)); // junk appended after the frame
         }
+        for k in 0..RAW_PREFIX.len() as u64 {
+            menu.push((fi, 8, k)); // raw over-long length prefix, then the client keeps streaming
+        }
         menu.push((fi, 4, 0)); // bit flip on the wire
     }
-    for v in 0..12 {
+    for v in 0..16 {
         menu.push((0, 5, v)); // Encryption Response variants
     }
     for w in 0..8 {
@@ -145,6 +152,13 @@ fn generate(rng: &mut Rng, index: u64) -> ConnScenario {
         4 => {
             sc.client.mutations.push(Mutation { frame: fi, op: MutOp::WireFlip { off: rng.usize_below(len), bit: rng.below(8) as u8 } });
         }
+        8 => {
+            sc.client.mutations.push(Mutation { frame: fi, op: MutOp::OuterRaw { bytes: RAW_PREFIX[par as usize].to_vec() } });
+            // the prefix alone first; then the client keeps streaming a lot more
+            let flood = *rng.pick(&[100usize, 20_000, 300_000]);
+            sc.client.mutations.push(Mutation { frame: fi, op: MutOp::Append { bytes: rng.bytes(flood) } });
+            sc.client.cuts.push(Cut { at: f.start + 5, gate: Gate::Delay { ns: secs(10) }, spurious: 0 });
+        }
         6 => {
             for _ in 0..par {
                 sc.wplan.push(crate::pipe::WRule::Accept { max: 1_000_000 });
@@ -167,6 +181,10 @@ fn generate(rng: &mut Rng, index: u64) -> ConnScenario {
                 8 => EncVariant::SecretLen { len: 17 },
                 9 => EncVariant::SecretLen { len: 32 },
                 10 => EncVariant::TokenZero { len: 128 },
+                11 => EncVariant::TokenPrefix { len: 0 },
+                12 => EncVariant::TokenPrefix { len: 31 },
+                13 => EncVariant::TokenExtended { extra: 1 },
+                14 => EncVariant::SecretLen { len: 16 },
                 _ => EncVariant::OtherKey,
             };
         }
@@ -226,6 +244,22 @@ pub fn check(sc: &ConnScenario, out: &ConnOutcome, rep: &mut RunReport) {
                     rep.violate("malformed_input_is_an_error", format!("declared length {v} but listen() returned Ok"));
                 }
             }
+            MutOp::OuterRaw { bytes }
+                if bytes.len() == 5 && bytes.iter().all(|b| b & 0x80 != 0) && {
+                    // the 32-bit value the five groups encode; only non-positive / too large ones must be refused
+                    let v = bytes.iter().enumerate().fold(0u32, |acc, (i, b)| acc | (u32::from(b & 0x7f) << (7 * i))) as i32;
+                    v <= 0 || v as usize > max
+                } =>
+            {
+                let t_prefix = PipeState::avail_at(&out.pipe.avail, f.start + 5).unwrap_or(u64::MAX);
+                match out.done_ns {
+                    Some(d) if d <= t_prefix => {}
+                    other => rep.violate("illegal_length_refused_before_body", format!("five-byte length prefix {} with the continuation bit still set: available at {t_prefix} ns, handler returned {:?} ({})", crate::world::hex(bytes), other, out.result)),
+                }
+                if out.result == "Ok" {
+                    rep.violate("malformed_input_is_an_error", "over-long length prefix but listen() returned Ok".into());
+                }
+            }
             MutOp::Truncate { keep } if (*keep as u64) < f.end - f.start + 0 && sc.client.close_after.is_some() => {
                 if out.result == "Ok" {
                     rep.violate("malformed_input_is_an_error", format!("frame #{} truncated to {keep} bytes then EOF, but listen() returned Ok", m.frame));
@@ -236,8 +270,8 @@ pub fn check(sc: &ConnScenario, out: &ConnOutcome, rep: &mut RunReport) {
     }
     let enc_sent = out.view.sent.iter().any(|s| s.kind == "EncryptionResponse" && !s.mutated);
     match &sc.client.enc {
-        _ if !enc_sent => {}
-        EncVariant::Garbage { .. } | EncVariant::OtherKey | EncVariant::TokenZero { .. } => {
+        _ if !enc_sent || super::c01::is_honest(&sc.client.enc) => {}
+        EncVariant::Garbage { .. } | EncVariant::OtherKey | EncVariant::TokenZero { .. } | EncVariant::TokenPrefix { .. } | EncVariant::TokenExtended { .. } => {
             if out.result == "Ok" || out.view.first("LoginSuccess").is_some() {
                 rep.violate("malformed_input_is_an_error", format!("Encryption Response {:?} but result {} packets {:?}", sc.client.enc, out.result, out.view.kinds()));
             }
@@ -260,7 +294,7 @@ impl Check for C04 {
         "fault_enumeration"
     }
     fn rule_text(&self) -> String {
-        "four honest transcripts (status; login; transfer; transfer with valid cookies - each through the configuration phase with two ignorable packets) with exactly one mutation enumerated by run index over every frame: a BrokenPipe on the n-th server write; a client reset after any frame; outer length set to -1 / 0 / -2^31 / 2^31-1 / 2097152 / max / max+1 / len+-1 (prefix delivered alone, body 10 s later); truncation at every byte offset followed by EOF or reset; every byte offset replaced by VarInt -1 / 2^31-1 / -2^31 / over-long zero / six-byte VarInt / 00 / 7f / 80 / ff / invalid UTF-8 with the outer length repaired; 1-300 random bytes appended after the frame; a bit flipped on the wire (ciphertext once encrypted); 12 Encryption Response variants (garbage of 0/1/127/128/129/1000 bytes, secrets of 0/15/17/32 bytes, zero token, other key); maximum frame 300 / 1024 / 10000 / 100000; a third of the runs under random segmentation. Non-trivial = the mutation was applied to a frame that was actually sent; distinct = distinct (event-order trace, mutation) hash.".into()
+        "four honest transcripts (status; login; transfer; transfer with valid cookies - each through the configuration phase with two ignorable packets) with exactly one mutation enumerated by run index over every frame: a BrokenPipe on the n-th server write; a client reset after any frame; a five-byte length prefix with the continuation bit still set followed by up to 300 KB; outer length set to -1 / 0 / -2^31 / 2^31-1 / 2097152 / max / max+1 / len+-1 (prefix delivered alone, body 10 s later); truncation at every byte offset followed by EOF or reset; every byte offset replaced by VarInt -1 / 2^31-1 / -2^31 / over-long zero / six-byte VarInt / 00 / 7f / 80 / ff / invalid UTF-8 with the outer length repaired; 1-300 random bytes appended after the frame; a bit flipped on the wire (ciphertext once encrypted); 12 Encryption Response variants (garbage of 0/1/127/128/129/1000 bytes, secrets of 0/15/17/32 bytes, zero token, other key); maximum frame 300 / 1024 / 10000 / 100000; a third of the runs under random segmentation. Non-trivial = the mutation was applied to a frame that was actually sent; distinct = distinct (event-order trace, mutation) hash.".into()
     }
     fn assumptions(&self) -> Vec<String> {
         vec![
@@ -294,6 +328,7 @@ impl Check for C04 {
         for m in &sc.client.mutations {
             let name = match m.op {
                 MutOp::OuterLen { .. } => "mut_outer_length",
+                MutOp::OuterRaw { .. } => "mut_overlong_length_prefix",
                 MutOp::Truncate { .. } => "mut_truncate_then_eof",
                 MutOp::Patch { .. } | MutOp::Splice { .. } => "mut_splice_inner",
                 MutOp::Append { .. } => "mut_append_junk",
